@@ -10,7 +10,7 @@ from checks.common import *  # noqa
 PROPERTY = "C02"
 
 
-def h_history(ctx, hist, fr_max, arc_max, aa0, ask, ackpl, send_only, ard="sym", latency=0, driver="full", ackpl_opt=False, static=False):
+def h_history(ctx, hist, fr_max, arc_max, aa0, ask, ackpl, send_only, ard="sym", latency=0, driver="full", ackpl_opt=False, static=False, cfg=None):
     clock = fresh_env(ctx)
     lite = driver == "lite"
     radio, nrf = new_lite(clock) if lite else new_rf24(clock)
@@ -33,6 +33,16 @@ def h_history(ctx, hist, fr_max, arc_max, aa0, ask, ackpl, send_only, ard="sym",
     if static:  # static payload width (2 bytes, as the payloads below): the fate reported must not depend on the length mode
         nrf.dynamic_payloads = False
         nrf.payload_length = 2
+    if cfg == "toggled":  # a configuration history whose net effect is nil: every feature switched the other way and back
+        if not lite:
+            nrf.allow_ask_no_ack = False
+            nrf.allow_ask_no_ack = True
+            nrf.auto_ack = False
+            nrf.auto_ack = True
+            nrf.dynamic_payloads = False
+            nrf.dynamic_payloads = True
+        nrf.ack = True
+        nrf.ack = False
     if ackpl:
         nrf.ack = True
     if not aa0:
@@ -148,6 +158,7 @@ def jobs(tier):
         mixm = [(True, False, 2, "mix")]
         plan = [  # history, fr_max, arc_max, modes, symbolic ard?
             (("send", "send"), 0, 2, mixm, False), (("send", "resend"), 0, 2, mixm, False), (("send", "send", "send"), 0, 1, mixm, False), (("send", "send", "resend"), 0, 1, mixm, False),
+            (("send", "resend", "send"), 0, 1, mixm, False), (("send", "send", "send"), 1, 0, mixm, False),
             (("send",), 1, 15, modes, False), (("send",), 3, 5, modes, False), (("send",), 1, 3, [base, modes[4]], True),
             (("send", "send"), 1, 4, modes, False), (("send", "resend"), 1, 4, modes, False),
             (("sendlist",), 1, 4, modes, False), (("resend",), 0, 3, [base], False),
@@ -182,6 +193,10 @@ def jobs(tier):
                                         (("send", "send"), (True, False, 0, False)), (("send", "resend"), (False, False, 0, False))):
         out.append(Job("send-resend-history-static-payloads", h_history,
                        dict(hist=list(hist), fr_max=1, arc_max=3, aa0=aa0, ask=ask, ackpl=ackpl, send_only=so, ard=250, static=True), cost=20))
+    for hist, (aa0, ask, ackpl, so) in ((("send", "resend"), (True, True, 0, False)), (("sendlist",), (True, True, 0, False)),
+                                        (("send", "send"), (True, False, 0, False)), (("send", "resend"), (True, False, 2, False))):
+        out.append(Job("send-resend-history-after-toggling-the-features", h_history,
+                       dict(hist=list(hist), fr_max=1, arc_max=3, aa0=aa0, ask=ask, ackpl=ackpl, send_only=so, ard=250, cfg="toggled"), cost=20))
     # the same contract on the stripped-down driver (rf24_lite.RF24; C20 states its parity with the full driver in detail)
     for hist, fr_max, arc_max in ((("send", "send", "send"), 0, 1), (("send", "resend"), 1, 2), (("sendlist",), 1, 2)):
         out.append(Job("send-resend-history-lite-driver", h_history,
